@@ -368,11 +368,12 @@ structure RespOut where
 
 /-- `errorPage`: the built-in page rendered for a failure.  `absOf` turns the model's relative
     path into the text Go prints (the harness supplies the working directory). -/
-def errorPage (w : World) (f : Fail) (cwd : Bytes) : World × EvalOut :=
+def errorPageData (w : World) (f : Fail) (cwd : Bytes) : List (Bytes × GoVal) :=
   let absPath := if f.path.isEmpty then [] else cleanPath (cwd ++ [47] ++ f.path)
-  let data : List (Bytes × GoVal) :=
-    [(b "path", .str absPath), (b "line", .int f.line), (b "message", .str f.msg), (b "debugMode", .bool w.cfg.debug)]
-  evaluateString w (Gen.defaultErrorPage) data
+  [(b "path", .str absPath), (b "line", .int f.line), (b "message", .str f.msg), (b "debugMode", .bool w.cfg.debug)]
+
+def errorPage (w : World) (f : Fail) (cwd : Bytes) : World × EvalOut :=
+  evaluateString w (Gen.defaultErrorPage) (errorPageData w f cwd)
 
 /-- `Template.Response` -/
 def tplResponse (w : World) (t : Template) (name : Bytes) (data : List (Bytes × GoVal)) (cwd : Bytes) :
